@@ -353,4 +353,21 @@ def AgreeOn (P : HostResp → Prop) : Outcome → Outcome → Prop
   | .host op k, .host op' k' => op = op' ∧ ∀ r, P r → k r = k' r
   | _, _ => False
 
+/-! ## BLOBHASH, and the EOF-only opcode bytes in legacy code -/
+
+/-- BLOBHASH (EIP-4844, Cancun): δ = 1, α = 1, `G_verylow`; the versioned hash at the index, 0 behind the end -/
+def blobhashRule (s : IState) : Done :=
+  if !enabled s.spec GasCalc.SpecId.CANCUN then .halt .NotActivated [] (adv s)
+  else unopRule GasCalc.VERYLOW (fun i => (s.env.blobHashes[min i (U64 - 1)]?).getD 0) s
+
+/-- the running code is legacy code (no EOF container, not EOF init code) -/
+def Legacy (s : IState) : Prop := s.isEof = false ∧ s.isEofInit = false
+
+/-- an opcode byte that only EOF code may use (DATALOAD … DATACOPY, RJUMP … EXCHANGE, EOFCREATE, RETURNDATALOAD,
+EXTCALL, EXTDELEGATECALL, EXTSTATICCALL) ends a legacy frame exceptionally -/
+def eofOnlyRule (s : IState) : Done := .halt .EOFOpcodeDisabledInLegacy [] (adv s)
+
+/-- RETURNCONTRACT (0xee) outside EOF init code -/
+def returnContractRule (s : IState) : Done := .halt .ReturnContractInNotInitEOF [] (adv s)
+
 end Revm.Spec.EvmRules2
